@@ -55,7 +55,7 @@ NoView == [on |-> FALSE, kind |-> "", buf_size |-> 0, rs |-> 0, re |-> 0, is |->
 \* measured and dropped
 Script(vw, bs, be, lens, n) ==
     [vw EXCEPT !.short = ~(bs.t = "i" /\ be.t = "e"), !.lens = lens, !.steps = 0, !.maxsteps = Min(n + 1, MaxScript)]
-LenDue == view.lens /\ ev.op # "v_len"
+LenDue == view.lens /\ ev.op \notin {"v_len", "v_size_hint"}
 
 (***************************************************************************)
 (* Machine arithmetic, exactly as lib.rs:240-257.                          *)
@@ -573,6 +573,10 @@ NextIO ==
                 r == ExtendFromSlice(Rnow, data, NoFault) IN
             Commit(IoEv("write", r, 0, data, RetN(k)), r) /\ UNCHANGED view
        \/ Commit(IoEv("flush", Rnow, 0, <<>>, RetK("ok")), Rnow) /\ UNCHANGED view
+       \/ \E k \in 0..MaxArg :                                    \* Extend<&u8>: push_back(*item) for every item
+            LET data == [x \in 1..k |-> 100 + x]
+                r == ExtendClonedLoop(Rnow, data, NoFault) IN
+            Commit(IoEv("extend_ref", r, 0, data, RetUnitR), r) /\ UNCHANGED view
        \/ \E k \in 0..(N + 2) :                                     \* read: copy from both slices, truncate_front
             LET p == SlicesOf(start, size)
                 c1 == Min(Len(p[1]), k)
@@ -656,7 +660,7 @@ NextViewStep ==
                  /\ Commit([e EXCEPT !.post = ViewObs(e)], r)
        \/ LET n == IF view.kind = "drain" THEN view.ie - view.is ELSE IF view.kind = "into" THEN size ELSE Len(view.right) + Len(view.left)
               r == [Rnow EXCEPT !.ret = [RetN(n) EXCEPT !.ids2 = <<n, n>>]]
-              e == IntoH(ViewEv("v_len", r, Ev0)) IN
+              e == IntoH(ViewEv(IF view.steps % 2 = 1 THEN "v_size_hint" ELSE "v_len", r, Ev0)) IN
           /\ LenDue
           /\ view' = view
           /\ Commit([e EXCEPT !.post = ViewObs(e)], r)
